@@ -38,7 +38,7 @@ theorem pit_entry_scheduled (cfg : Cfg) (cap : Nat) (ops : List Op) :
   simp [hp]
 
 example : (run (init { nexthops := [(3, 10)] } 4)
-    [Op.data ⟨3, [⟨8, [97]⟩], 0, none, [1]⟩, Op.interest id ⟨1, [⟨8, [97]⟩], false, false, 7, 1000⟩]).pit.map (·.sched)
+    [Op.data ⟨3, [⟨8, [97]⟩], 0, none, [1]⟩, Op.interest id 1 [⟨8, [97]⟩] false false (some 7) 1000 none none]).pit.map (·.sched)
     = [some 0] := by decide
 
 /-- **pit_removed_by.** Whenever the forwarder is at rest (every armed timer lies in the future, as
@@ -125,8 +125,13 @@ theorem quiescent_drain (cfg : Cfg) (cap : Nat) (ops : List Op) (tie : Nat → B
   simpa using hmin
 
 example :
-    let s := run (init { nexthops := [(3, 10)] } 4) [Op.interest id ⟨1, [⟨8, [97]⟩], false, false, 7, 1000000⟩]
+    let s := run (init { nexthops := [(3, 10)] } 4) [Op.interest id 1 [⟨8, [97]⟩] false false (some 7) 1000000 none none]
     (advanceTo (fun _ => true) 50 s 200000000).pit = [] ∧ s.pit.length = 1 := by decide
+
+-- an Interest pinned to a face that does not exist creates an entry that is scheduled and drains
+example :
+    let s := run (init { nexthops := [(3, 10)] } 4) [Op.interest id 1 [⟨8, [97]⟩] false false (some 7) 1000000 none (some 9)]
+    s.pit.map (·.sched) = [some 1000000] ∧ (advanceTo (fun _ => true) 50 s 200000000).pit = [] := by decide
 
 /-- **tree minimality** (every reachable state, not only at quiescence): the node set of the PIT-CS
     name tree is exactly the set of non-empty prefixes of the names holding a cache entry or a PIT
